@@ -268,6 +268,24 @@ pub fn record_main(args: &[String]) -> i32 {
         let text = render(version, 0, rng.gen_range(0..11) as f64, rng.gen_range(0..11) as f64, [0.4, 1.0, 1.4, 2.2, 3.6][rng.gen_range(0..5)], [0.5, 1.0, 2.0, 4.0][rng.gen_range(0..4)], &timing, &objs);
         let Ok(map) = Beatmap::from_bytes(text.as_bytes()) else { continue };
         push(format!("generated {g} v{version} n={n}"), &map, true, &mut rng);
+        // the same map with positions anywhere a file may put them (also left / right of the playfield); ids are gone, so only the
+        // mode-level facts are compared
+        if g % 2 == 0 {
+            let mut in_objs = false;
+            let moved: String = text.lines().map(|l| {
+                if l.trim() == "[HitObjects]" {
+                    in_objs = true;
+                    return l.to_string();
+                }
+                match (in_objs, l.split_once(',')) {
+                    (true, Some((_, rest))) => format!("{},{rest}", [-50, 0, 37, 256, 480, 511, 512, 513, 600, 1000][rng.gen_range(0..10)]),
+                    _ => l.to_string(),
+                }
+            }).collect::<Vec<_>>().join("\n");
+            if let Ok(map) = Beatmap::from_bytes(moved.as_bytes()) {
+                push(format!("generated {g} v{version} n={n} moved"), &map, false, &mut rng);
+            }
+        }
     }
     // the osu fixture (window) and mutations of it
     if let Ok(bytes) = std::fs::read("/repo/resources/2785319.osu") {
